@@ -472,7 +472,7 @@ func finishRun(prop, tier string, seed int64, specs []*HarnessSpec, units []unit
 		"transitions":                   instrs,
 		"traces_validated_against_impl": 0,
 		"samples":                       samples,
-		"explanation":                   "bounded symbolic execution of the real functions (go/ssa) with z3 deciding every branch, panic site, raw load and assertion for all inputs inside the stated bounds",
+		"explanation":                   explanationOf(prop),
 		"functions_encoded":             fl,
 		"harnesses":                     perHarness,
 		"paths":                         paths,
@@ -492,7 +492,7 @@ func finishRun(prop, tier string, seed int64, specs []*HarnessSpec, units []unit
 		"property_id": prop,
 		"tier":        tier,
 		"seed":        seed,
-		"level":       "model_checking",
+		"level":       levelOf(prop),
 		"coverage":    cov,
 		"assumptions": []string{
 			"go/ssa construction and the executor's instruction semantics",
@@ -519,4 +519,20 @@ func finishRun(prop, tier string, seed int64, specs []*HarnessSpec, units []unit
 		exit = 2
 	}
 	return exit
+}
+
+// levelOf: C14 is decided through a sequential reduction, which is not model checking of schedules.
+func levelOf(prop string) string {
+	if prop == "C14" {
+		return "other"
+	}
+	return "model_checking"
+}
+
+func explanationOf(prop string) string {
+	base := "bounded symbolic execution of the real functions (go/ssa) with z3 deciding every branch, panic site, raw load and assertion for all inputs inside the stated bounds"
+	if prop == "C14" {
+		return "sequential non-interference reduction: " + base + "; all memory existing before the instances is frozen (plain stores to it are violations), consecutive and operation-interleaved instances incl. pooled-object reuse must see only their own symbolic payloads, map lookups must be store-free. Real goroutine schedules, sync.Pool per-P caches and the race detector's happens-before relation are not explored; sync.Pool, mcache, span and dirtmake are trusted to be thread-safe as documented."
+	}
+	return base
 }
